@@ -62,8 +62,10 @@ pub struct World {
 }
 
 impl World {
-    pub fn new(base: &Base) -> Self {
-        World { history: SharedHistory::from_config(&base.config), notify: NotifySender::new() }
+    pub fn with_keep(base: &Base, keep: Option<usize>) -> Self {
+        let mut config = base.config.clone();
+        if let Some(keep) = keep { config.history_size = keep }
+        World { history: SharedHistory::from_config(&config), notify: NotifySender::new() }
     }
 
     /// The real server step (`Server::process_once`) with the given data.
